@@ -259,6 +259,20 @@ theorem wf_rxRstX (lx : LX) (s mid : Nat) (h : WF lx.l) : WF (rxRstX lx s mid).l
       simpa using this
   · simpa using wf_rxRst lx.l s mid h
 
+theorem wf_rxAckP (l : L) (s mid : Nat) (dup : Bool) (h : WF l) : WF (rxAckP l s mid dup) := by
+  unfold rxAckP
+  simp only []
+  split
+  · exact wf_rxAck l s mid h
+  · exact (WF_emit _ _).mpr (wf_rxAck l s mid h)
+
+theorem wf_disconnectP (p : Proto) (l : L) (s : Nat) (h : WF l) : WF (disconnectP p l s) := by
+  unfold disconnectP
+  have hd := wf_disconnect l s h
+  cases p with
+  | udp => exact hd
+  | dtls => exact hd.of_frame (Frame.setS _ _ _) (SInv.setS (fun hlt => hd.sinv s hlt))
+
 /-- `WF` of the base layer is an invariant of every event of the extended model -/
 theorem wfX_step (lx : LX) (e : EvX) (h : WF lx.l) : WF (stepX lx e).l := by
   cases e with
@@ -287,7 +301,7 @@ theorem wfX_step (lx : LX) (e : EvX) (h : WF lx.l) : WF (stepX lx e).l := by
     | connect s => simpa [stepX, step] using Msg.wf_step lx.l (.connect s) h
     | disconnect s =>
       simp only [stepX]; split
-      · simpa using wf_disconnect _ _ h
+      · simpa using wf_disconnectP _ _ _ h
       · exact h
   | submitT s con mid r tok => simpa [stepX] using wf_submitT lx.l s con mid r tok h
   | icmp s =>
@@ -295,6 +309,10 @@ theorem wfX_step (lx : LX) (e : EvX) (h : WF lx.l) : WF (stepX lx e).l := by
     · exact wf_afterRxX _ (by simpa using wf_icmp _ _ h)
     · exact h
   | keepalive secs => exact h
+  | rxAckP s mid tok =>
+    simp only [stepX]; split
+    · exact wf_afterRxX _ (by simpa using wf_rxAckP _ _ _ _ h)
+    · exact h
 
 theorem wfX_run (evs : List EvX) : ∀ (lx : LX), WF lx.l → WF (runX lx evs).l := by
   induction evs with
@@ -455,6 +473,27 @@ theorem rxRstX_star (lx : LX) (s' mid s : Nat) (hs : s < lx.l.sess.length) :
     · simpa using (DqSame.mk_q s lx.l _).star.trans (release_star _ s' s (by exact hs))
   · simpa using rxRst_star lx.l s' mid s hs
 
+theorem afterRxX_setK_star (lx : LX) (s' : Nat) (k : KA) (s : Nat) (hs : s < lx.l.sess.length) :
+    Star (DqStep s) lx.l (afterRxX (lx.setK s' k)).l := by
+  simpa using afterRxX_star (lx.setK s' k) s (by simpa using hs)
+
+theorem rxAckP_star (l : L) (s' mid : Nat) (dup : Bool) (s : Nat) (hs : s < l.sess.length) :
+    Star (DqStep s) l (rxAckP l s' mid dup) := by
+  unfold rxAckP
+  simp only []
+  split
+  · exact rxAck_star l s' mid s hs
+  · exact (rxAck_star l s' mid s hs).trans (DqSame.emit _ _ _).star
+
+theorem disconnectP_star (p : Proto) (l : L) (s' s : Nat) (hs : s < l.sess.length) :
+    Star (DqStep s) l (disconnectP p l s') := by
+  unfold disconnectP
+  have hd := disconnect_star l s' s hs
+  cases p with
+  | udp => exact hd
+  | dtls =>
+    exact hd.trans (DqSame.setS_keep (l := disconnect l s') (by rw [hd.len]; exact hs) s' (by rfl)).star
+
 /-- every event of the extended model moves the delay queue of every session only by `DqStep`s -/
 theorem stepX_star (lx : LX) (e : EvX) (s : Nat) (hs : s < lx.l.sess.length) :
     Star (DqStep s) lx.l (stepX lx e).l := by
@@ -488,7 +527,7 @@ theorem stepX_star (lx : LX) (e : EvX) (s : Nat) (hs : s < lx.l.sess.length) :
     | connect s' => simpa [stepX] using connected_star lx.l s' s hs
     | disconnect s' =>
       simp only [stepX]; split
-      · simpa using disconnect_star lx.l s' s hs
+      · simpa using disconnectP_star _ lx.l s' s hs
       · exact Star.refl
   | submitT s' con mid r tok => simpa [stepX] using submitT_star lx.l s' con mid r tok s hs
   | icmp s' =>
@@ -497,6 +536,12 @@ theorem stepX_star (lx : LX) (e : EvX) (s : Nat) (hs : s < lx.l.sess.length) :
         (fun hs' => afterRxX_star _ s hs')
     · exact Star.refl
   | keepalive secs => exact Star.refl
+  | rxAckP s' mid tok =>
+    simp only [stepX]; split
+    · exact Star.andThen (b := ((lx.read s').lift (rxAckP lx.l s' mid (decide ((lx.getK s').lastAckMid = some mid)))).l)
+        (by simpa using rxAckP_star lx.l s' mid _ s hs) hs
+        (fun hs' => afterRxX_setK_star _ s' _ s hs')
+    · exact Star.refl
 
 theorem runX_star (evs : List EvX) : ∀ (lx : LX) (s : Nat), s < lx.l.sess.length →
     Star (DqStep s) lx.l (runX lx evs).l := by
@@ -530,7 +575,8 @@ theorem prepareCoreX_off (lx : LX) (h : lx.pingTimeout = 0) :
 layer of the extended model exactly what `Coap.Msg.step` does (for `rxNon` the extended model walks the send
 queue as `coap_cancel_all_messages` does, the base model restarts from its head after every removal: they differ
 only when a message carrying the same token is released from the delay queue during the walk). -/
-theorem stepX_base (lx : LX) (e : Ev) (h : lx.pingTimeout = 0) (hn : ∀ s mid tok, e ≠ .rxNon s mid tok) :
+theorem stepX_base (lx : LX) (e : Ev) (h : lx.pingTimeout = 0) (hn : ∀ s mid tok, e ≠ .rxNon s mid tok)
+    (hu : ∀ s, lx.proto s = .udp) :
     (stepX lx (.base e)).l = step lx.l e ∧ (stepX lx (.base e)).pingTimeout = 0 := by
   cases e with
   | setNow t => exact ⟨rfl, h⟩
@@ -568,7 +614,94 @@ theorem stepX_base (lx : LX) (e : Ev) (h : lx.pingTimeout = 0) (hn : ∀ s mid t
   | connect s => simp [stepX, step, h]
   | disconnect s =>
     simp only [stepX, step]; split
-    · simp [h]
+    · simp [h, hu s, disconnectP]
     · exact ⟨rfl, h⟩
+
+/-! ### a piggy-backed response concludes the message it acknowledges and no other -/
+
+/-- the loop of `coap_session_connected` only ADDS nodes to the send queue -/
+theorem drain_countP_ge (p : Node → Bool) (hp : TStable p) : ∀ (fuel : Nat) (l : L) (s k : Nat),
+    k ≤ l.q.nodes.countP p → k ≤ (drain fuel l s).q.nodes.countP p
+  | 0, l, s, k, h => h
+  | fuel + 1, l, s, k, h => by
+    unfold drain
+    simp only []
+    split
+    · exact h
+    · rename_i n rest hdq
+      split
+      · exact h
+      · split
+        · exact h
+        · cases hc : n.con
+          · simp only [Bool.false_eq_true, if_false]
+            exact drain_countP_ge p hp fuel _ s k h
+          · simp only [if_true]
+            apply drain_countP_ge p hp fuel _ s k
+            rw [Msg.waitAck]
+            simp only [countP_enqueue p hp]
+            exact Nat.le_trans h (Nat.le_add_right _ _)
+
+theorem connected_countP_ge (p : Node → Bool) (hp : TStable p) (l : L) (s k : Nat)
+    (h : k ≤ l.q.nodes.countP p) : k ≤ (connected l s).q.nodes.countP p := by
+  unfold connected
+  exact drain_countP_ge p hp _ _ s k h
+
+theorem release_countP_ge (p : Node → Bool) (hp : TStable p) (l : L) (s k : Nat)
+    (h : k ≤ l.q.nodes.countP p) : k ≤ (release l s).q.nodes.countP p := by
+  unfold release
+  simp only []
+  split
+  · exact h
+  · split
+    · exact connected_countP_ge p hp _ s k h
+    · exact h
+
+/-- the ACK branch of `coap_dispatch` takes out of the send queue at most the node with that session and message
+id: every other message (counted by any predicate `p` that is false on the acknowledged one) stays -/
+theorem rxAck_countP_le (p : Node → Bool) (hp : TStable p) (l : L) (s mid : Nat)
+    (hn : ∀ n : Node, n.sess = s → n.mid = mid → p n = false) :
+    l.q.nodes.countP p ≤ (rxAck l s mid).q.nodes.countP p := by
+  unfold rxAck
+  rcases hr : removeNode l.q.nodes s mid with ⟨res, rest⟩
+  simp only []
+  cases res with
+  | none => have := (removeNode_none _ _ _ _ hr).1; subst this; exact Nat.le_refl _
+  | some n =>
+    have hm := removeNode_some p hp _ _ _ _ _ hr
+    have hpn := hn n hm.2.1 hm.2.2.1
+    have h1 : l.q.nodes.countP p = rest.countP p := by rw [hm.2.2.2, hpn]; simp
+    rw [h1]
+    exact release_countP_ge p hp { l with q := { l.q with nodes := rest } } s _ (Nat.le_refl _)
+
+theorem rxAckP_countP_le (p : Node → Bool) (hp : TStable p) (l : L) (s mid : Nat) (dup : Bool)
+    (hn : ∀ n : Node, n.sess = s → n.mid = mid → p n = false) :
+    l.q.nodes.countP p ≤ (rxAckP l s mid dup).q.nodes.countP p := by
+  unfold rxAckP
+  simp only []
+  split
+  · exact rxAck_countP_le p hp l s mid hn
+  · exact rxAck_countP_le p hp l s mid hn
+
+/-- `coap_session_disconnected_lkd` leaves a UDP session ESTABLISHED -/
+theorem disconnect_est (l : L) (s : Nat) (hlt : s < l.sess.length) : ((disconnect l s).getS s).est = true := by
+  rw [disconnect_eq]
+  have hlt' : s < (discHead l s).sess.length := by rw [(discHead_frame l s).1.len]; exact hlt
+  generalize discHead l s = l1 at hlt'
+  unfold discTail
+  simp only []
+  rw [getS_setS_same (by simpa using hlt')]
+  have e2 : ∀ (l' : L) ns, (nackAll l' s .undeliv ns).getS s = l'.getS s := fun l' ns => by rw [nackAll_eq]; rfl
+  simp only [e2]
+  show ((l1.setS s _).getS s).est = true
+  rw [getS_setS_same hlt']
+
+/-- a line without DTLS sessions: every session is a UDP session -/
+theorem proto_udp_of_nil (lx : LX) (h : lx.dtls = []) (s : Nat) : lx.proto s = .udp := by
+  simp [LX.proto, h]
+
+/-- `COAP_PROTO_NOT_RELIABLE` holds for both transports M covers: the guards of the `con_active` updates are open
+for a DTLS session exactly as for a UDP session -/
+theorem notReliable_datagram (p : Proto) : p.notReliable = true := by cases p <;> rfl
 
 end Coap.MsgX
